@@ -34,6 +34,8 @@ ErrName(k) == CASE k = "Type" -> <<84, 121, 112, 101>>
                 [] k = "Argument" -> <<65, 114, 103, 117, 109, 101, 110, 116>>
                 [] OTHER -> <<63>>
 LineOut(o) == IF o.shown_from >= Len(m.out) THEN <<>> ELSE SubSeq(m.out, o.shown_from + 1, Len(m.out))
+T_nullword == <<110, 117, 108, 108>>
+Contains(t, w) == \E i \in 1..(Len(t) - Len(w) + 1) : SubSeq(t, i, i + Len(w) - 1) = w
 PromptOK ==
   LET o == Obs   r == m.res IN
   IF "shown_missing" \in DOMAIN o THEN "prompt-died"
@@ -42,10 +44,15 @@ PromptOK ==
        IF ~m.vdef THEN "ok"
        ELSE LET d == Display(r.v, m.heap, MaxDisplayDepth) IN
             IF ~d.ok THEN "ok"
-            ELSE IF o.shown = LineOut(o) \o (IF r.v.t = "N" THEN <<>> ELSE d.s \o <<10>>) THEN "ok" ELSE "prompt"
+            ELSE IF r.v.t = "N"            \* null: nothing, an empty line, or the word (how null is shown is the prompt's own affair)
+                 THEN (IF o.shown \in {LineOut(o), LineOut(o) \o <<10>>, LineOut(o) \o T_nullword \o <<10>>} THEN "ok" ELSE "prompt")
+                 ELSE (IF o.shown = LineOut(o) \o d.s \o <<10>> THEN "ok" ELSE "prompt")
   ELSE IF r.k = "E" THEN
-       LET head == LineOut(o) \o ErrName(o.kind) \o <<69, 114, 114, 111, 114, 40>> IN      \* ...Error(
-       IF IsPrefixOf(head, o.shown) /\ o.shown[Len(o.shown)] = 10 THEN "ok" ELSE "prompt"
+       \* the line's output, then a report that names the error's kind (its wording is the prompt's own affair)
+       LET lo == LineOut(o) IN
+       IF IsPrefixOf(lo, o.shown) /\ Len(o.shown) > Len(lo) /\ o.shown[Len(o.shown)] = 10
+          /\ Contains(SubSeq(o.shown, Len(lo) + 1, Len(o.shown)), ErrName(o.kind))
+       THEN "ok" ELSE "prompt"
   ELSE "ok"
 
 (* the verdict for the halted record: [class, rule] *)
